@@ -1,6 +1,8 @@
-(* Extraction of the C14 model (CSC kernels, sparse LDL^T, dense pivot-free LDL^T): same directives as ExtractFast.v *)
+(* Extraction of the C14 model (CSC kernels, sparse LDL^T, dense pivot-free LDL^T): same directives as ExtractFast.v.
+   ldl_index_check (LDLSparseProofs.v) is the boolean index-only check of theorem numeric_erase / ldl_index_check_n5:
+   the driver evaluates it on every tested pattern (key model_idxcheck). *)
 From Coq Require Import Extraction ExtrOcamlBasic ExtrOcamlZBigInt.
-From PIQP Require Import Base CSC LDLSparse LDLDenseNP.
+From PIQP Require Import Base CSC LDLSparse LDLDenseNP LDLSparseProofs.
 Extraction Language OCaml.
 Extract Constant Z.ggcd =>
   "(fun a b -> let g = Big_int_Z.gcd_big_int a b in
@@ -10,4 +12,4 @@ Extract Constant Z.gcd => "Big_int_Z.gcd_big_int".
 Extract Constant Z.log2 => "Zhelp.log2".
 
 Extraction "model14.ml" qmk symbolic numeric ldl_solve lsolve dsolve ltsolve permute_sym ordering_init ord_perm ord_permt
-  transpose_no_alloc transpose_colptr pre_mult_diagonal post_mult_diagonal unblocked blocked dense_solve.
+  transpose_no_alloc transpose_colptr pre_mult_diagonal post_mult_diagonal unblocked blocked dense_solve ldl_index_check.
